@@ -134,12 +134,26 @@ static void svd_case(const Desc& d, const MatL& AL0, int ncomp, int ncv, const c
     }
 }
 
+// every case has its own generator (seed, case) and its own Reset line, so that a case is replayable on its own
+// (descriptor "mode=..;seed=S;case=C") and a recorded finding names exactly one case
+static bool case_selected(const Desc& d, int c, const char* mode)
+{
+    if (d.has("case") && (int) d.i("case") != c)
+        return false;
+    Line l("Reset");
+    l.str("desc", std::string("mode=") + mode + ";seed=" + std::to_string(d.i("seed", 1)) + ";case=" + std::to_string(c) + (d.has("kfix") ? ";kfix=" + d.s("kfix") : ""));
+    out().put(l);
+    return true;
+}
+
 static void mode_svd(const Desc& d)
 {
-    Rng r((uint64_t) d.i("seed", 1) * 613 + 7);
-    const int count = (int) d.i("count", 30);
+    const int count = d.has("case") ? (d.i("case") < 1000 ? (int) d.i("case") + 1 : 0) : (int) d.i("count", 30);
     for (int c = 0; c < count; c++)
     {
+        if (!case_selected(d, c, "svd"))
+            continue;
+        Rng r((uint64_t) d.i("seed", 1) * 613 + 7 + 7919ULL * (uint64_t) c);
         int m = 4 + r.below(30), n = 4 + r.below(30);
         if (c % 3 == 0)
             n = m;
@@ -196,9 +210,11 @@ static void mode_svd(const Desc& d)
 // configurations with a hole (a later triplet converges before an earlier one); whatever is returned must be consistent
 static void svd_sweep(const Desc& d)
 {
-    Rng r((uint64_t) d.i("seed", 1) * 91 + 5);
     for (int rep = 0; rep < 2; rep++)
     {
+        if (!case_selected(d, 1000 + rep, "svd"))
+            continue;
+        Rng r((uint64_t) d.i("seed", 1) * 91 + 5 + 7919ULL * (uint64_t) rep);
         const int m = rep ? 40 + r.below(20) : 60 + r.below(30), n = rep ? 60 + r.below(30) : 40 + r.below(20);
         const int mn = std::min(m, n);
         VecL s(mn);
@@ -242,10 +258,12 @@ static void mode_lobpcg(const Desc& d)
 {
     typedef Eigen::SparseMatrix<double> SpMat;
     typedef Eigen::MatrixXd Mat;
-    Rng r((uint64_t) d.i("seed", 1) * 389 + 3);
-    const int count = (int) d.i("count", 20);
+    const int count = d.has("case") ? (int) d.i("case") + 1 : (int) d.i("count", 20);
     for (int c = 0; c < count; c++)
     {
+        if (!case_selected(d, c, "lobpcg"))
+            continue;
+        Rng r((uint64_t) d.i("seed", 1) * 389 + 3 + 7919ULL * (uint64_t) c);
         // block size k = 1 is a recorded finding (the inner generalized solver is built with ncv <= nev and throws): it is
         // exercised only by the fixed descriptor with kfix=1
         const int k = d.has("kfix") ? (int) d.i("kfix") : 2 + r.below(2);
@@ -452,6 +470,18 @@ static void davidson_case(const Desc& d, const MatL& AL0, const char* store, int
                 mingap = g;
         }
         l.i("qgap", q(mingap));
+        // separation of the wanted set from the rest in the rule's key: gap at the boundary >= 2% of the key spread (measured here,
+        // used by the spec only to decide whether the selection clause applies)
+        {
+            std::vector<LD> key(n);
+            for (int j = 0; j < n; j++)
+                key[j] = (rule == 0 || rule == 4) ? std::fabs(lref[j]) : lref[j];
+            std::vector<LD> srt(key);
+            std::sort(srt.begin(), srt.end());
+            LD spread = srt[n - 1] - srt[0];
+            LD gapb = (rule == 3 || rule == 0) ? srt[n - nev] - srt[n - nev - 1] : srt[nev] - srt[nev - 1];
+            l.i("sep", (spread > 0 && gapb * 50 >= spread) ? 1 : 0);
+        }
     }
     catch (const std::invalid_argument&)
     {
@@ -467,11 +497,13 @@ static void davidson_case(const Desc& d, const MatL& AL0, const char* store, int
 
 static void mode_davidson(const Desc& d)
 {
-    Rng r((uint64_t) d.i("seed", 1) * 271 + 9);
-    const int count = (int) d.i("count", 30);
+    const int count = d.has("case") ? (int) d.i("case") + 1 : (int) d.i("count", 30);
     const int rules[4] = {3, 7, 0, 4};   // LargestAlge, SmallestAlge, LargestMagn, SmallestMagn
     for (int c = 0; c < count; c++)
     {
+        if (!case_selected(d, c, "davidson"))
+            continue;
+        Rng r((uint64_t) d.i("seed", 1) * 271 + 9 + 7919ULL * (uint64_t) c);
         const int n = 20 + r.below(60);
         // diagonally dominant: distinct diagonal plus weak symmetric coupling (the regime the method is designed for)
         MatL A = MatL::Zero(n, n);
@@ -488,7 +520,12 @@ static void mode_davidson(const Desc& d)
                 A(i, j) = A(j, i) = coupling * r.sym();
         }
         const int nev = 1 + r.below(3);
-        const int rule = rules[c % 4];
+        int rule = rules[c % 4];
+        // SmallestMagn on a spectrum that straddles zero asks for INTERIOR eigenvalues, which the diagonal-preconditioned Davidson
+        // iteration does not reliably deliver on the unchanged tree (recorded finding on a fixed case); the random profile keeps
+        // SmallestMagn for one-signed spectra
+        if (rule == 4 && c % 3 == 0)
+            rule = 7;
         const double tol = (c % 2) ? 1e-6 : 1e-9;
         const int guess = (c % 6 == 5) ? 1 : 0;
         int init = 0, maxs = 0, corr = 0;
@@ -516,16 +553,11 @@ static void mode_davidson(const Desc& d)
 template <typename T>
 void dispatch(const Desc& d)
 {
-    {
-        Line l("Reset");
-        l.str("desc", d.raw);
-        out().put(l);
-    }
     const std::string mode = d.s("mode");
     if (mode == "svd")
     {
         mode_svd(d);
-        if (d.i("sweep", 1))
+        if (d.i("sweep", 1) && (!d.has("case") || d.i("case") >= 1000))
             svd_sweep(d);
     }
     else if (mode == "lobpcg")
